@@ -122,6 +122,9 @@ fn coq_doc(doc: &Value) -> String {
 
 struct Env { srv: Server, seq: AtomicU64 }
 
+type Updater = Box<dyn FnMut(Option<&Config>, &uri::Https, &[uri::Rsync]) -> (u8, Option<&'static str>, Vec<Option<bytes::Bytes>>, Option<std::path::PathBuf>)>;
+thread_local! { static UPDATER: std::cell::RefCell<Option<Updater>> = const { std::cell::RefCell::new(None) }; }
+
 const REASONS: &[&str] = &["", "new-repository", "new-session", "inconsistent-delta-set", "large-delta-set", "delta-mutation",
     "large-serial", "outdate-local", "conflicting-delta", "too-many-deltas", "corrupt-local-copy"];
 
@@ -145,7 +148,9 @@ fn run(input: &Value, env: &Env) -> CaseOut {
         config.refresh = Duration::ZERO;
         config.rrdp_fallback_time = Duration::from_nanos(1);
     }
-    let mut updater = config.verif_rrdp_updater().expect("RRDP collector");
+    // one HTTP client per worker thread; the collector is moved to this case's cache directory and settings
+    UPDATER.with(|u| { if u.borrow().is_none() { *u.borrow_mut() = Some(config.verif_rrdp_updater().expect("RRDP collector")); } });
+    let mut first = true;
     let notify_path = format!("{}notification.xml", prefix);
     let notify_uri = uri::Https::from_str(&env.srv.uri(&notify_path)).unwrap();
     let probes: Vec<uri::Rsync> = (0..NURI).map(|u| uri::Rsync::from_str(&obj_uri(u)).unwrap()).collect();
@@ -214,7 +219,12 @@ fn run(input: &Value, env: &Env) -> CaseOut {
 
         // one validation run
         let _ = env.srv.take_log(&prefix);
-        let res = std::panic::catch_unwind(std::panic::AssertUnwindSafe(|| updater(&notify_uri, &probes)));
+        let res = std::panic::catch_unwind(std::panic::AssertUnwindSafe(|| UPDATER.with(|u| {
+            let mut u = u.borrow_mut();
+            (u.as_mut().unwrap())(if first { Some(&config) } else { None }, &notify_uri, &probes)
+        })));
+        first = false;
+        if res.is_err() { UPDATER.with(|u| { if let Ok(mut u) = u.try_borrow_mut() { *u = None; } }); }
         let (result, reason, objects, path) = match res { Ok(r) => r, Err(_) => (6, None, Vec::new(), None) };
         let reqs: Vec<u64> = env.srv.take_log(&prefix).iter().map(|r| {
             let name = &r.path[prefix.len()..];
